@@ -28,7 +28,7 @@ func (c *verifChunkReader) Read(p []byte) (int, error) {
 // verifScanAll reads all records the way nextLine does (RT preset to RS before every Scan)
 func verifScanAll(p *interp, data []byte, k1, k2 int) (recs []string, rts []string) {
 	r := &verifChunkReader{chunks: [][]byte{data[:k1], data[k1:k2], data[k2:]}}
-	sc := p.newScanner(r, make([]byte, 16))
+	sc := p.newScanner(r, make([]byte, verifScanBuf))
 	for {
 		p.recordTerminator = p.recordSep
 		if !sc.Scan() {
@@ -39,6 +39,10 @@ func verifScanAll(p *interp, data []byte, k1, k2 int) (recs []string, rts []stri
 	}
 	return
 }
+
+// initial size of the scanner buffer: 16 (larger than every input here) or 3 (full buffers, growth, a buffer edge
+// inside a record or separator)
+var verifScanBuf = 16
 
 func verifSame(a, b []string) bool {
 	if len(a) != len(b) {
@@ -70,8 +74,11 @@ func verifC07Chunks(rs string, class string) {
 	if verifBound(0, 1) == 1 {
 		k2 = verifIntRange(k1, n)
 	}
+	verifScanBuf = 16
 	r1, t1 := verifScanAll(verifInterpRS(rs), data, n, n)
+	verifScanBuf = []int{16, 3}[verifIntRange(0, 1)]
 	r2, t2 := verifScanAll(verifInterpRS(rs), data, k1, k2)
+	verifScanBuf = 16
 	verifReach("compared")
 	verifAssert(verifSame(r1, r2), class+": records depend on how the input is chunked")
 	verifAssert(verifSame(t1, t2), class+": RT depends on how the input is chunked")
@@ -197,4 +204,21 @@ func VerifC07ScanRegexAltGap() {
 	verifKnown("C07-regex-rs-needs-lookahead", has)
 	verifReach("compared")
 	verifAssert(verifSame(r1, r2) && verifSame(t1, t2), "RS=/ab|abcd/: records or RT depend on how the input is chunked")
+}
+
+// paragraph mode on longer inputs over the alphabet {letter, LF, CR}: blank lines spelled with CRLF, every 2-chunk split
+func VerifC07ScanBlankCRLF() {
+	n := verifIntRange(4, verifBound(6, 7))
+	data := verifBytes(n)
+	for _, b := range data {
+		verifAssume(b == 'a' || b == '\n' || b == '\r')
+	}
+	k1 := verifIntRange(0, n)
+	verifScanBuf = 16
+	r1, t1 := verifScanAll(verifInterpRS(""), data, n, n)
+	verifScanBuf = []int{16, 3}[verifIntRange(0, 1)]
+	r2, t2 := verifScanAll(verifInterpRS(""), data, k1, n)
+	verifScanBuf = 16
+	verifReach("compared")
+	verifAssert(verifSame(r1, r2) && verifSame(t1, t2), "RS=\"\" with CR and LF: records or RT depend on how the input is chunked")
 }
